@@ -2,6 +2,15 @@
 use nalgebra::{DMatrix, DVector};
 use std::fmt::Write as _;
 
+/// `--only <sub-stream>`: emit only that part of a stream (e.g. `state --only faulty`)
+pub static ONLY: std::sync::OnceLock<String> = std::sync::OnceLock::new();
+pub fn only_allows(part: &str) -> bool {
+    match ONLY.get() {
+        Some(o) => o == part,
+        None => true,
+    }
+}
+
 /// splitmix64: every random choice of a run derives from one state
 #[derive(Clone)]
 pub struct Rng(pub u64);
